@@ -17,6 +17,14 @@ Checks(e) ==
            (IF IsPanic(e.res) THEN {Bad(e, "estimate-panicked")} ELSE
             (IF e.est > e.p THEN {Bad(e, "estimate-later-than-fork-point")} ELSE {})
             \cup (IF e.est # Estimate(e.p, e.mine, e.theirs) THEN {Bad(e, "estimate-differs-from-transcription")} ELSE {}))
+      [] e.ev = "End" /\ e.lite ->
+           \* a lite client: ghost chain + lite blocks.  Not one of the listed properties: divergences are recorded
+           \* as observations (prop "LITE"), except a handler panic
+           (IF IsPanic(e.res) THEN {Bad(e, "handler-panicked-during-sync")} ELSE
+            {[pos |-> l, scn |-> e.scn, i |-> e.i, prop |-> "LITE", why |-> w, res |-> e.res] : w \in
+               (IF ~(e.a_on_b_tip /\ e.same_tip) THEN {"lite-node-below-peer-tip"} ELSE {})
+               \cup (IF Rng(e.touching) # Rng(e.held) THEN {"lite-node-lacks-a-block-touching-its-key"} ELSE {})
+               \cup (IF e.wallet_a # e.ledger_a THEN {"lite-wallet-differs-from-ledger"} ELSE {})})
       [] e.ev = "End" ->
            (IF IsPanic(e.res) THEN {Bad(e, "handler-panicked-during-sync")} ELSE
             (IF e.budget_hit THEN {Bad(e, "exchange-did-not-quiesce")} ELSE {})
